@@ -10,13 +10,15 @@ Proof. destruct a; cbn; lia. Qed.
 Lemma withinb_spec d b : withinb d b = true <-> within d b.
 Proof. destruct d; cbn; [apply Z.leb_le|split; [discriminate|tauto]]. Qed.
 
-(* generic: a table in which every operation goes through the timeout helpers is bounded in
-   every configuration *)
+(* generic: a table in which every operation goes through the timeout helpers, none of them
+   re-arming the timeout per skipped frame, is bounded per STEP in every configuration and for
+   every number / spacing of skipped frames *)
 Lemma bounded_table_ok ops : all_ops_bounded ops = true ->
-  forall c timeout start op, In op ops -> step_bounded c timeout start op.
+  forall c timeout start n gap o, In o ops -> step_bounded c timeout start n gap o.
 Proof.
-  unfold all_ops_bounded. rewrite forallb_forall. intros H c timeout start op Hin.
-  unfold step_bounded, op_deadline. rewrite (H op Hin). apply dmin_within_r. lia.
+  unfold all_ops_bounded. rewrite forallb_forall. intros H c timeout start n gap o Hin.
+  specialize (H o Hin). apply andb_true_iff in H as [Hb Hr]. apply negb_true_iff in Hr.
+  unfold step_bounded, step_deadline, op_deadline. rewrite Hb, Hr. apply dmin_within_r. lia.
 Qed.
 
 (* the generated table of the current source *)
@@ -24,14 +26,22 @@ Lemma client_steps_all_bounded : all_ops_bounded client_steps = true.
 Proof. vm_compute. reflexivity. Qed.
 
 Theorem every_step_bounded :
-  forall c timeout start op, In op client_steps -> step_bounded c timeout start op.
+  forall c timeout start n gap o, In o client_steps -> step_bounded c timeout start n gap o.
 Proof. exact (bounded_table_ok client_steps client_steps_all_bounded). Qed.
 
 (* conversely an operation that bypasses the helpers is unbounded exactly when the context
    that reaches Run has no deadline: PFS connect or key regeneration with a deadline-free caller *)
-Lemma bare_op_unbounded c timeout start dir :
-  run_ctx c = Inf -> ~ step_bounded c timeout start (dir, false).
-Proof. unfold step_bounded, op_deadline. cbn [snd]. intros ->. cbn. tauto. Qed.
+Lemma bare_op_unbounded c timeout start n gap dir r :
+  run_ctx c = Inf -> ~ step_bounded c timeout start n gap (dir, false, r).
+Proof. unfold step_bounded, step_deadline, op_deadline, op_bounded. cbn [fst snd]. intros ->. cbn. tauto. Qed.
+
+(* and a step that re-arms its timeout per skipped frame outlives the timeout by n * gap *)
+Lemma restart_op_late c timeout start n gap dir :
+  run_ctx c = Inf -> 0 < n * gap -> ~ step_bounded c timeout start n gap (dir, true, true).
+Proof.
+  unfold step_bounded, step_deadline, op_deadline, op_bounded, op_restart. cbn [fst snd].
+  intros -> H. cbn. lia.
+Qed.
 
 Lemma run_ctx_inf_iff c :
   run_ctx c = Inf <-> cfg_caller c = Inf /\ (cfg_pfs c = true \/ cfg_regen c = true).
